@@ -1052,16 +1052,17 @@ def observe_image(ctx, tools, img):
     with tarfile.open(fileobj=io.BytesIO(r2.stdout), mode="r:") as tf:
         for m in tf:
             mt[m.name.rstrip("/")] = int(m.mtime)
+    from checks import c04_tools
+    desc, bad = c04_tools.parse_describe(r.stdout.encode("latin1"))     # handles the old and the new (quoted/escaped, root line) format
+    if bad:
+        return None, "unparsable describe output: %s" % bad[:2]
     lines = []
-    for l in r.stdout.splitlines():
-        f = l.split(" ")
-        kind, path = f[0], f[1]
-        rest = f[5:]
-        x = "%s %s %s %s %s mtime=%s" % (kind, tok(path.encode()), f[2], f[3], f[4], mt.get(path, "?"))
-        if kind == "slink":
-            x += " " + tok(" ".join(rest).encode())
-        elif kind == "nod":
-            x += " " + " ".join(rest)
+    for path, dn in desc.items():
+        x = "%s %s 0%o %d %d mtime=%s" % (dn.type, tok(path), dn.perm, dn.uid, dn.gid, mt.get(path.decode("latin1"), "?"))
+        if dn.type == "slink":
+            x += " " + tok(dn.extra or b"")
+        elif dn.type == "nod":
+            x += " " + (dn.extra or b"").decode("latin1")
         lines.append(x)
     return sorted(lines), None
 
